@@ -41,6 +41,7 @@ THEOREMS = [
     "PyTrie.Props.Free.op_is_executor_op",
     "PyTrie.Props.Free.run_pruning_exact",
     "PyTrie.Props.Free.run_get",
+    "PyTrie.Props.Free.history_lockstep",
 ]
 RULE = ("pruning tries started on an empty database and modified only through their own API: histories of "
         "set/delete/set-to-empty/no-op updates and squash_changes blocks (committed and aborted) over prefix-sharing "
